@@ -107,6 +107,11 @@ structure Oti where
   fec : Nat
   esl : Nat          -- encoding symbol length
   msbl : Nat         -- maximum source block length
+  /-- `max_number_of_parity_symbols` -/
+  parity : Nat := 0
+  /-- `scheme_specific`: `(kind, a, b, c)`, kind 0 = Reed-Solomon GF(2^m) `(m, g, _)`, 1 = RaptorQ
+      `(Z, N, Al)`, 2 = Raptor `(Z, N, Al)` -/
+  ss : Option (Nat × Nat × Nat × Nat) := none
   deriving DecidableEq, Repr, Inhabited
 
 structure FileAbs where
@@ -114,6 +119,11 @@ structure FileAbs where
   cc : Option CcChoice
   tlen : Nat                   -- `get_transfer_length()`
   oti : Option Oti             -- `FdtInstance::get_oti_for_file`
+  /-- `File::content_length`: decides complete vs error when the last byte is written (e19fa2b) -/
+  contentLength : Option Nat := none
+  /-- `File::content_encoding` as `attach_fdt` maps it (0 null, 1 zlib, 2 deflate, 3 gzip; absent or
+      unknown = 0) -/
+  cenc : Nat := 0
   deriving DecidableEq, Repr, Inhabited
 
 structure FdtAbs where
@@ -191,6 +201,8 @@ structure Pkt where
   pid : Option (Nat × Nat)     -- `get_fec_inline_payload_id`: (sbn, esi); none = `Err`
   plen : Nat                   -- payload length
   dlen : Nat                   -- length of the whole datagram (`pkt.data.len()`)
+  /-- EXT_CENC (`pkt.cenc`: 0 null, 1 zlib, 2 deflate, 3 gzip), read by `ObjectReceiver::push` -/
+  cenc : Option Nat := none
   /-- the datagram itself (`pkt.data`), for object implementations that look at payload bytes; the
       session level never reads it -/
   raw : List Nat := []
@@ -294,8 +306,9 @@ def FdtRecv.noteFti (f : FdtRecv σ) (v : Option Fti) : FdtRecv σ :=
 
 /-- `FdtReceiver::fti_conflicts`: the packet announces another FEC OTI / transfer length -/
 def FdtRecv.ftiConflicts (f : FdtRecv σ) (p : Pkt) : Bool :=
+  -- `first_fti : (fec_encoding_id, maximum_source_block_length, encoding_symbol_length, transfer_length)`
   match f.fti, p.fti with
-  | some a, some b => a != b
+  | some a, some b => (a.oti.fec, a.oti.msbl, a.oti.esl, a.len) != (b.oti.fec, b.oti.msbl, b.oti.esl, b.len)
   | _, _ => false
 
 /-- `FdtReceiver::push` (after the `first_fti` bookkeeping, see `fdtEntry`) -/
